@@ -27,6 +27,15 @@ profile. They exist because seeded changes of round 2 needed them to manifest (D
  p_cli_comma_define   a `-D` value containing commas and further `=` signs (`-D LIBS=-Wl,-Map=out.map`): one assignment, split at the first `=`
  p_self_named_unique  a module named like the feature it claims with `provides_unique` (the default implementation of `stdio` is called
                       `stdio`), plus another provider of that name, selected in either order
+ p_defaults_uses_removed  defaults listing a module under uses / depends / selects and a module of the document removing it again with `-name`
+                      in its own list of the same kind (the removed module stays in the build through the app and exports env)
+ p_app_custom_build   an APP with its own `build:` (out ≠ ${outfile}) whose only sources are optional, guard selected in some builders only
+ p_same_dldir_downloads  two downloaded modules sharing one `dldir` (one tag file), one using the other; one app selects both, another one
+ p_desc_with_builder  a rule `description:` mentioning `${builder}` / `${app}` (laze leaves descriptions alone: the text is not part of what
+                      differs between builds)
+ p_srcdir_in_root_download  a downloaded module declared in the root file (no dldir) and a second module whose `srcdir:` is a sub-directory of
+                      the download directory
+ p_provided_name_is_module  a name that is both a real module and provided by a build-dependency module; a third module depends on the name
  p_subdirs_later_doc  a multi-document file listing a sub-directory from a document that is not the first, with different defaults
 """
 import copy, random
@@ -427,6 +436,107 @@ def self_named_unique(p, rng):
         a[kk] = order + list(a.get(kk) or [])
 
 
+def defaults_uses_removed(p, rng):
+    docs = [(path, d) for path, d in _all_docs(p) if d.get("modules")]
+    if not docs:
+        return
+    path, d = rng.choice(docs)
+    root = _root(p)
+    root.setdefault("modules", []).append({"name": "durcfg", "env": {"export": {"CFLAGS": ["-DDUR_CFG=1"], "DEFS": ["-DDUR"]}}})
+    dm = d.setdefault("defaults", {}).setdefault("module", {})
+    kind = rng.choice(["uses", "uses", "depends", "selects"])
+    dm[kind] = list(dm.get(kind) or []) + [rng.choice(["durcfg", "?durcfg"]) if kind != "uses" else "durcfg"]
+    m = d["modules"][0]
+    if not isinstance(m.get(kind, []), list):
+        return
+    m[kind] = list(m.get(kind) or []) + ["-durcfg"]
+    m.setdefault("sources", [])
+    if isinstance(m["sources"], list) and not m["sources"]:
+        m["sources"].append((m.get("name") or "anon") + "_dur.c")
+    for k, a, pa, dd in list(_modules(p, ("apps",)))[:2]:
+        kk = "selects" if "selects" in a or "depends" not in a else "depends"
+        a[kk] = ["durcfg"] + (["?" + m["name"]] if m.get("name") else []) + list(a.get(kk) or [])
+
+
+def app_custom_build(p, rng):
+    root = _root(p)
+    root.setdefault("modules", []).append({"name": "acbguard", "sources": ["acbguard.c"]})
+    root.setdefault("apps", []).append({"name": "acbapp", "selects": ["?acbguard"],
+                                        "sources": [{"acbguard": ["acb_diag.c"]}] + (["acb_main.c"] if rng.random() < 0.3 else []),
+                                        "build": {"cmd": ["pack ${in} > ${out}"], "out": ["${bindir}/bundle.pkg"]}})
+    blds = root.get("builders") or []
+    if blds:
+        b = rng.choice(blds)
+        b["disables"] = list(b.get("disables") or []) + ["acbguard"]
+    a = p.setdefault("args", {})
+    if a.get("apps") is not None:
+        a["apps"] = list(a["apps"]) + ["acbapp"]
+
+
+def same_dldir_downloads(p, rng):
+    root = _root(p)
+    dflt = next((c for c in root.get("contexts") or [] if c.get("name") == "default"), None)
+    if dflt is None or not any(r.get("name") == "GIT_DOWNLOAD" for r in dflt.get("rules") or []):
+        return
+    mods = root.setdefault("modules", [])
+    git = {"git": {"url": "https://example.invalid/sdd.git", "commit": "0123abcd"}}
+    mods.append({"name": "sdd_a", "download": dict(git, dldir="sdd_shared"), "sources": ["sdd_a.c"]})
+    mods.append({"name": "sdd_b", "download": dict(git, dldir="sdd_shared"), "sources": ["sdd_b.c"], rng.choice(["uses", "depends"]): ["sdd_a"]})
+    apps = [a for k, a, pa, dd in _modules(p, ("apps",))]
+    for i, a in enumerate(apps):
+        kk = "selects" if "selects" in a or "depends" not in a else "depends"
+        a[kk] = (["sdd_a", "sdd_b"] if i % 2 == 0 else ["sdd_b"]) + list(a.get(kk) or [])
+    if len(apps) < 2:
+        root.setdefault("apps", []).append({"name": "sddapp2", "sources": ["sddapp2.c"], "selects": ["sdd_b"]})
+
+
+def desc_with_builder(p, rng):
+    root = _root(p)
+    cands = [c for c in (root.get("contexts") or []) if c.get("rules")]
+    if not cands:
+        return
+    c = rng.choice(cands)
+    rules = [r for r in c["rules"] if r.get("in") in ("c", "S", "o")]
+    if rules:
+        rng.choice(rules)["description"] = rng.choice(["CC ${builder} ${out}", "${app}: ${in}", "[${builder}/${app}] ${out}", "x ${CFLAGS}"])
+
+
+def srcdir_in_root_download(p, rng):
+    root = _root(p)
+    dflt = next((c for c in root.get("contexts") or [] if c.get("name") == "default"), None)
+    if dflt is None or not any(r.get("name") == "GIT_DOWNLOAD" for r in dflt.get("rules") or []):
+        return
+    mods = root.setdefault("modules", [])
+    mods.append({"name": "rdl", "download": {"git": {"url": "https://example.invalid/rdl.git", "commit": "0123abcd"}}})
+    sub = rng.choice(["library/x509", "src", "a/b/c"])
+    mods.append({"name": "rdlsub", "srcdir": "${build-dir}/dl/rdl/" + sub, "sources": ["crt.c", "crl.c"], rng.choice(["depends", "uses"]): ["rdl"]})
+    if rng.random() < 0.5:
+        mods.append({"name": "rdlexact", "srcdir": "${build-dir}/dl/rdl", "sources": ["top.c"], "depends": ["rdl"]})
+    for k, a, pa, dd in list(_modules(p, ("apps",)))[:2]:
+        kk = "selects" if "selects" in a or "depends" not in a else "depends"
+        a[kk] = ["rdlsub"] + (["?rdlexact"] if rng.random() < 0.5 else []) + list(a.get(kk) or [])
+
+
+def provided_name_is_module(p, rng):
+    root = _root(p)
+    dflt = next((c for c in root.get("contexts") or [] if c.get("name") == "default"), None)
+    has_dl = dflt is not None and any(r.get("name") == "GIT_DOWNLOAD" for r in dflt.get("rules") or [])
+    mods = root.setdefault("modules", [])
+    mods.append({"name": "pnm", "sources": ["pnm.c"]})
+    backend = {"name": "pnm_backend", "provides": ["pnm"], "sources": ["pnm_backend.c"]}
+    if has_dl and rng.random() < 0.5:
+        backend["download"] = {"git": {"url": "https://example.invalid/pnmb.git", "commit": "0123abcd"}}
+    else:
+        backend["is_build_dep"] = True
+        backend["build"] = {"cmd": ["gen ${out}"], "out": ["${build-dir}/gen/pnm_backend.h"]}
+        backend.pop("sources")
+    mods.append(backend)
+    mods.append({"name": "pnmuser", "sources": ["pnmuser.c"], rng.choice(["depends", "uses"]): ["pnm"]})
+    for k, a, pa, dd in list(_modules(p, ("apps",)))[:2]:
+        kk = "selects" if "selects" in a or "depends" not in a else "depends"
+        a[kk] = ["pnm_backend", "pnm", "pnmuser"] + list(a.get(kk) or [])
+
+
 def subdirs_later_doc(p, rng):
     docs = p["files"]["laze-project.yml"]
     root = docs[0]
@@ -444,7 +554,9 @@ def subdirs_later_doc(p, rng):
 
 
 SHAPES = [("p_rule_rename_chain", rule_rename_chain), ("p_ifthen_feature_cond", ifthen_feature_cond), ("p_empty_blockallow", empty_blockallow),
-          ("p_rule_export_escape", rule_export_escape), ("p_optsrc_same_guard", optsrc_same_guard), ("p_subdirs_later_doc", subdirs_later_doc), ("p_self_named_unique", self_named_unique), ("p_cli_comma_define", cli_comma_define), ("p_custom_build_no_out", custom_build_no_out), ("p_two_patched_downloads", two_patched_downloads), ("p_shadowed_provider", shadowed_provider),
+          ("p_rule_export_escape", rule_export_escape), ("p_optsrc_same_guard", optsrc_same_guard), ("p_subdirs_later_doc", subdirs_later_doc), ("p_defaults_uses_removed", defaults_uses_removed), ("p_app_custom_build", app_custom_build),
+          ("p_same_dldir_downloads", same_dldir_downloads), ("p_desc_with_builder", desc_with_builder), ("p_srcdir_in_root_download", srcdir_in_root_download),
+          ("p_provided_name_is_module", provided_name_is_module), ("p_self_named_unique", self_named_unique), ("p_cli_comma_define", cli_comma_define), ("p_custom_build_no_out", custom_build_no_out), ("p_two_patched_downloads", two_patched_downloads), ("p_shadowed_provider", shadowed_provider),
           ("p_dup_listing", dup_listing), ("p_ctx_shuffle", ctx_shuffle), ("p_app_dup", app_dup), ("p_rule_field_variant", rule_field_variant),
           ("p_defaults_lists", defaults_lists), ("p_global_dep_order", global_dep_order), ("p_late_ifthen_leaf", late_ifthen_leaf)]
 
